@@ -230,8 +230,10 @@ sint8 espconn_sent(struct espconn *c, uint8 *p, uint16 len) {
 sint8 espconn_secure_sent(struct espconn *c, uint8 *p, uint16 len) {
   return do_sent(c, p, len);
 }
+int sdk_conn_open = 0;
 static sint8 do_connect(struct espconn *c) {
   sdk_last_conn = c;
+  sdk_conn_open = 1;
   if (c && c->proto.tcp)
     sdk_out("CONNECT %u.%u.%u.%u:%d", c->proto.tcp->remote_ip[0],
             c->proto.tcp->remote_ip[1], c->proto.tcp->remote_ip[2],
@@ -244,6 +246,7 @@ sint8 espconn_connect(struct espconn *c) { return do_connect(c); }
 sint8 espconn_secure_connect(struct espconn *c) { return do_connect(c); }
 static sint8 do_disconnect(struct espconn *c) {
   sdk_out("DISCONNECT");
+  sdk_conn_open = 0;
   if (sdk_disconnect_calls_cb && c && c->proto.tcp &&
       c->proto.tcp->disconnect_callback)
     c->proto.tcp->disconnect_callback(c);
